@@ -25,8 +25,9 @@
 
   Beyond read ∘ write (sections at the end of the file):
     byte fixed point     write reg' (readBack reg r p) = write reg r, per field group and composed
-                         (`write_read_write_partial`, guard `namesDistinct`; full statement refuted at a
-                         hand-built `Props` with a repeated row name), second generation without guard
+                         (`write_read_write_partial`, guard `namesAdjacent`; full statement refuted at a
+                         hand-built `Props` with a repeated, NON-adjacent row name: order only, since
+                         repo 7b61a9a no value is lost — `write_keeps_every_value`), second generation without guard
                          (`reread_fixed_point`, `read_back_idempotent`)
     learning             reading under a registry that has learned names, streams in which records
                          teach the registry names (`read_stream_learning`), learning never changes what
@@ -433,13 +434,31 @@ theorem read_stream (reg : Registry) (rs : List (Record × Bytes))
 added back one by one with `Props.Add`, a toggle's value empty), written by `INSDCFormatter` under
 any registry `reg'` that writes the same text as `reg` (`sameText`: `reg` plus some of its unknown
 names learned as quoted — `learnTable reg fs` is one), is byte for byte the table text that was
-read.  Needs only that every `Props` has named rows with pairwise distinct names
-(`propsDistinct`); no clause on values: the writer looks up the NAMES of the table only, and
-learning keeps every earlier answer except unknown → quoted, which are written alike. -/
+read.  Needs only that in every `Props` the rows have names and the written qualifiers of one name
+are consecutive (`propsAdjacent`: rows of one name adjacent, rows without a value not counting —
+weaker than pairwise distinct names, `names_distinct_adjacent`); no clause on values: the writer
+looks up the NAMES of the table only, and learning keeps every earlier answer except
+unknown → quoted, which are written alike. -/
 theorem features_fixed_point (reg reg' : Registry) (hs : sameText reg reg') (fs : List QFeature)
-    (hd : tableDistinct fs = true) :
+    (hd : tableAdjacent fs = true) :
     tableText reg' (fs.map (readFeature reg)) = tableText reg fs :=
-  tableText_readFeature reg reg' hs fs (by simpa [tableDistinct, List.all_eq_true] using hd)
+  tableText_readFeature reg reg' hs fs (by simpa [tableAdjacent, List.all_eq_true] using hd)
+
+/-- pairwise distinct row names (what `Props.Add` / `Props.Set` build) are the special case of the
+guard -/
+theorem names_distinct_adjacent (fs : List QFeature) (h : tableDistinct fs = true) : tableAdjacent fs = true :=
+  tableAdjacent_of_distinct fs h
+
+/-- non-vacuity of the weaker guard: a repeated name in ADJACENT rows (and a row without a value in
+between) is inside it and not inside `tableDistinct`; the re-read table is not the table, yet
+prints identically -/
+def adjacentWitness : List QFeature :=
+  [⟨bs "gene", .point 0, [[bs "note", bs "a"], [bs "focus"], [bs "note", bs "c"], [bs "gene", bs "b"]]⟩]
+
+example : tableAdjacent adjacentWitness = true ∧ tableDistinct adjacentWitness = false ∧
+    (adjacentWitness.map (readFeature Registry.default)).map (·.props) =
+      [[[bs "note", bs "a", bs "c"], [bs "gene", bs "b"]]] := by
+  refine ⟨by decide +kernel, by decide +kernel, by decide +kernel⟩
 
 /-- non-vacuity: a table with a toggle that was given a value through the API, a row without a
 value, a multi-valued row and an unknown name has distinct row names, is not `tableFaithful` (it
@@ -448,7 +467,7 @@ def fixedWitness : List QFeature :=
   [⟨bs "source", .ranged 0 10 false false, [[bs "organism", bs "Homo sapiens"], [bs "focus", bs "x"], [bs "note"]]⟩,
    ⟨bs "CDS", .point 3, [[bs "my_tag", bs "learned", bs "twice"], [bs "codon_start", bs "1"]]⟩]
 
-example : tableDistinct fixedWitness = true ∧ tableFaithful Registry.default fixedWitness = false ∧
+example : tableAdjacent fixedWitness = true ∧ tableFaithful Registry.default fixedWitness = false ∧
     fixedWitness.map (readFeature Registry.default) ≠ fixedWitness ∧
     (learnTable Registry.default fixedWitness).typeOf (bs "my_tag") = .quoted ∧
     Registry.default.typeOf (bs "my_tag") = .unknown :=
@@ -493,12 +512,44 @@ theorem write_learned_same (reg reg' : Registry) (hs : sameText reg reg') (r : R
     write reg' r = write reg r :=
   write_same reg reg' hs r
 
+/-- **The writer keeps every value** (what repo 7b61a9a, F31, buys).  The qualifier lines of a
+feature are one line group per (name, value) of every row, ROW BY ROW in the order of the rows,
+each value under its own row's name: `propsItems` — the items `INSDCFormatter.String` and
+`Props.Items` walk — is the concatenation of the rows' own items; every value of every row is among
+them; and the text of the feature is the key line followed by exactly their qualifier texts.
+(Before the repair a repeated row name wrote the FIRST row's values once per row of that name and
+never the later row's.) -/
+theorem write_keeps_every_value (reg : Registry) (depth : Nat) (f : QFeature) (hok : propsOk f.props = true) :
+    propsItems f.props = f.props.flatMap rowItems ∧
+    (∀ row ∈ f.props, ∀ v ∈ row.tail, (row.headD [], v) ∈ propsItems f.props) ∧
+    featureText reg depth f = .ok (sp 5 ++ f.key ++ sp (depth - 5 - f.key.length) ++ f.loc.printB ++
+      ((f.props.flatMap rowItems).flatMap fun kv => 10 :: qualifierFmt reg (sp depth) kv.1 kv.2)) := by
+  refine ⟨propsItems_eq _, ?_, ?_⟩
+  · intro row hrow v hv
+    rw [propsItems_eq]
+    refine List.mem_flatMap.mpr ⟨row, hrow, ?_⟩
+    cases row with
+    | nil => simp at hv
+    | cons k vs => simpa [rowItems] using hv
+  · simp only [featureText, hok, Bool.not_true, Bool.false_eq_true, if_false, propsItems_eq]
+
+/-- non-vacuity on the witness of F31: the three values `a`, `b`, `c` are written, in row order
+(the defect wrote `a`, `b`, `a`) -/
+example : propsOk [[bs "note", bs "a"], [bs "gene", bs "b"], [bs "note", bs "c"]] = true ∧
+    propsItems [[bs "note", bs "a"], [bs "gene", bs "b"], [bs "note", bs "c"]] =
+      [(bs "note", bs "a"), (bs "gene", bs "b"), (bs "note", bs "c")] := by
+  decide +kernel
+
 /-- FULL STATEMENT of the fixed point (false): "for every `Writable` record, writing the re-read
 record reproduces the first output".  `Writable` admits a hand-built `Props` in which a row name
-occurs twice in non-adjacent rows (not constructible with `Props.Add` / `Props.Set`):
-`Props.Items` writes the FIRST row's values once per row of that name, `Props.Add` on reading
-gathers them into one row, and the second output has the lines in another order.  Replayed on the
-real code: `gb.write` / `gb.wrw` of this witness give the two different texts. -/
+occurs twice in NON-adjacent rows (not constructible with `Props.Add` / `Props.Set`).  Since repo
+7b61a9a (F31) the writer walks the rows one by one and every value is written
+(`write_keeps_every_value`; before, `Keys()` + `Get(key)` wrote the first row's values once per row
+of that name and lost the later row's: `/note="a" /gene="b" /note="a"`).  What is left is ORDER
+only: the first output is `/note="a" /gene="b" /note="c"`, `Props.Add` on reading gathers the two
+`note` rows into one, and the second output is `/note="a" /note="c" /gene="b"` — no value lost, the
+lines in another order.  Replayed on the real code: `gb.write` / `gb.wrw` of this witness give the
+two texts. -/
 def dupNamesWitness : Record :=
   ⟨{ Fields.empty with locusName := bs "X", molecule := bs "DNA", date := ⟨1, 1, 1⟩ },
    [⟨bs "gene", .point 0, [[bs "note", bs "a"], [bs "gene", bs "b"], [bs "note", bs "c"]]⟩], .residues []⟩
@@ -508,37 +559,38 @@ theorem write_read_write_full_refuted :
     (dupNamesWitness.table.all fun f => Loc.canonP f.loc) = true ∧
     write (learnTable Registry.default dupNamesWitness.table) (readBack Registry.default dupNamesWitness []) ≠
       write Registry.default dupNamesWitness ∧
-    tableDistinct dupNamesWitness.table = false := by
+    tableAdjacent dupNamesWitness.table = false := by
   refine ⟨by decide +kernel, by decide +kernel, ?_, by decide +kernel⟩
   intro h
   have := congrArg (fun o => match o with | .ok t => t.length | .error _ => 0) h
   revert h
   decide +kernel
 
-/-- **write → read → write, proved part** (guard `namesDistinct`: in every feature the row names
-of `Props` are pairwise distinct — what `Props.Add` / `Props.Set` build; rows without a value are
-allowed).  For a `Writable` record: `GenBank.String` succeeds with a text `t`; `GenBankParser` reads
+/-- **write → read → write, proved part** (guard `namesAdjacent`: in every feature the written
+qualifiers of one name are consecutive — rows of one name adjacent; pairwise distinct names, what
+`Props.Add` / `Props.Set` build, are the special case `names_distinct_adjacent`; rows without a value
+are allowed.  The guard was `namesDistinct` before repo 7b61a9a).  For a `Writable` record: `GenBank.String` succeeds with a text `t`; `GenBankParser` reads
 from `t` (followed by anything) the record `readBack reg r p` and ends with the registry
 `reg' = learnTable reg r.table`; and `GenBank.String` of THAT record under THAT registry is `t`
 again, byte for byte.  Neither K1A (the REGION suffix moves into the accession: same bytes) nor K1E
 (excluded by `Writable` through `quotedOk`, as in `read_write`) needs a further guard. -/
 theorem write_read_write_partial (reg : Registry) (r : Record) (p : Bytes) (ho : r.origin = .residues p)
     (hw : Writable reg r p = true) (hloc : ∀ x ∈ r.table, LocRT x.loc)
-    (namesDistinct : tableDistinct r.table = true) (rest' : Bytes) :
+    (namesAdjacent : tableAdjacent r.table = true) (rest' : Bytes) :
     ∃ t, write reg r = .ok t ∧
       genbankParser reg ⟨t ++ rest', []⟩ = (.ok (readBack reg r p, learnTable reg r.table), ⟨rest', []⟩) ∧
       write (learnTable reg r.table) (readBack reg r p) = .ok t := by
   obtain ⟨t, h1, _, h2⟩ := GenBank.read_write reg r p ho hw hloc rest'
   refine ⟨t, h1, h2, ?_⟩
   have hlen : p.length < 10 ^ 9 := (writable_parts reg r p hw).2.2.2.2.2.2.2
-  rw [write_readBack reg _ (sameText_learnTable reg reg r.table (sameText_refl reg)) r p ho hlen namesDistinct, h1]
+  rw [write_readBack reg _ (sameText_learnTable reg reg r.table (sameText_refl reg)) r p ho hlen namesAdjacent, h1]
 
 /-- the fixed point alone, under ANY registry that writes the same text (the reader's registry
 after further records, for instance): `write reg' (readBack reg r p) = write reg r`. -/
 theorem write_readBack_partial (reg reg' : Registry) (hs : sameText reg reg') (r : Record) (p : Bytes)
-    (ho : r.origin = .residues p) (hlen : p.length < 10 ^ 9) (namesDistinct : tableDistinct r.table = true) :
+    (ho : r.origin = .residues p) (hlen : p.length < 10 ^ 9) (namesAdjacent : tableAdjacent r.table = true) :
     write reg' (readBack reg r p) = write reg r :=
-  write_readBack reg reg' hs r p ho hlen namesDistinct
+  write_readBack reg reg' hs r p ho hlen namesAdjacent
 
 /-- non-vacuity: a record with a region (K1A), a table that does not come back as itself
 (`fixedWitness`) and residues is in the domain of `write_read_write_partial` -/
@@ -547,7 +599,7 @@ def wrwWitness : Record :=
    .residues (List.replicate 12 97)⟩
 
 example : Writable Registry.default wrwWitness (List.replicate 12 97) = true ∧
-    (wrwWitness.table.all fun f => Loc.canonP f.loc) = true ∧ tableDistinct wrwWitness.table = true ∧
+    (wrwWitness.table.all fun f => Loc.canonP f.loc) = true ∧ tableAdjacent wrwWitness.table = true ∧
     wrwWitness.fields.region ≠ none ∧ tableFaithful Registry.default wrwWitness.table = false := by
   refine ⟨by decide +kernel, by decide +kernel, by decide +kernel, by decide, by decide +kernel⟩
 
@@ -559,7 +611,8 @@ theorem read_back_idempotent (reg reg' : Registry) (hs : sameText reg reg') (r :
   readBack_idem' reg reg' hs r p
 
 /-- … and the table of a record that was read always has distinct row names: from the second
-generation on the guard `namesDistinct` of `write_read_write_partial` holds by itself. -/
+generation on the guard `namesAdjacent` of `write_read_write_partial` holds by itself
+(`names_distinct_adjacent`). -/
 theorem read_back_names_distinct (reg : Registry) (r : Record) (p : Bytes) :
     tableDistinct (readBack reg r p).table = true :=
   tableDistinct_readFeature reg r.table
@@ -575,7 +628,7 @@ example : readBack Registry.default dupNamesWitness [] ≠ ⟨dupNamesWitness.fi
 the accession).  `GenBank.String` of `readBack reg r p` under the registry `reg'` the reader ended
 with succeeds with some text `t1`; `GenBankParser` under `reg'` reads from `t1` (followed by
 anything) the record `readBack reg r p` itself and leaves the registry `reg'`.  With
-`namesDistinct`, `t1` is the first output (`write_read_write_partial`). -/
+`namesAdjacent`, `t1` is the first output (`write_read_write_partial`). -/
 theorem reread_fixed_point (reg : Registry) (r : Record) (p : Bytes) (hw : Writable reg r p = true)
     (hloc : ∀ x ∈ r.table, LocRT x.loc) (rest' : Bytes) :
     ∃ t1, write (learnTable reg r.table) (readBack reg r p) = .ok t1 ∧
@@ -583,9 +636,9 @@ theorem reread_fixed_point (reg : Registry) (r : Record) (p : Bytes) (hw : Writa
         (.ok (readBack reg r p, learnTable reg r.table), ⟨rest', []⟩) :=
   reread_fixed reg r p hw hloc rest'
 
-/-- non-vacuity: the duplicate-name witness meets the hypotheses (and not the guard `namesDistinct`) -/
+/-- non-vacuity: the duplicate-name witness meets the hypotheses (and not the guard `namesAdjacent`) -/
 example : Writable Registry.default dupNamesWitness [] = true ∧
-    (dupNamesWitness.table.all fun f => Loc.canonP f.loc) = true ∧ tableDistinct dupNamesWitness.table = false :=
+    (dupNamesWitness.table.all fun f => Loc.canonP f.loc) = true ∧ tableAdjacent dupNamesWitness.table = false :=
   ⟨write_read_write_full_refuted.1, write_read_write_full_refuted.2.1, write_read_write_full_refuted.2.2.2⟩
 
 /-- **read (write r) under a registry that has learned names.**  The text `GenBank.String` wrote
@@ -641,12 +694,12 @@ theorem read_stream_learning_from (reg reg' : Registry) (hs : sameText reg reg')
       readAll reg' t = some (rs.map (fun x => readBack reg x.1 x.2), learnStream reg' (rs.map (·.1)), true) :=
   GenBank.read_stream_learning reg reg' hs rs hall
 
-/-- **Byte fixed point of a stream** (guard `namesDistinct` for every record): the records that
+/-- **Byte fixed point of a stream** (guard `namesAdjacent` for every record): the records that
 were read from a stream, written again with `WriteSeq` under any registry that writes the same text
 as the first writer's — the registry the reader ended with is one — reproduce the stream byte for
 byte. -/
 theorem write_stream_fixed_partial (reg reg' : Registry) (hs : sameText reg reg') (rs : List (Record × Bytes))
-    (hall : ∀ x ∈ rs, x.1.origin = .residues x.2 ∧ x.2.length < 10 ^ 9 ∧ tableDistinct x.1.table = true) :
+    (hall : ∀ x ∈ rs, x.1.origin = .residues x.2 ∧ x.2.length < 10 ^ 9 ∧ tableAdjacent x.1.table = true) :
     writeAll reg' (rs.map fun x => readBack reg x.1 x.2) = writeAll reg (rs.map (·.1)) :=
   writeAll_readBack reg reg' hs rs hall
 
@@ -660,7 +713,7 @@ def streamWitness : List (Record × Bytes) :=
 example : (∀ x ∈ streamWitness, x.1.origin = .residues x.2 ∧ Writable Registry.default x.1 x.2 = true ∧
       (∀ f ∈ x.1.table, LocRT f.loc)) ∧
     learnStream Registry.default (streamWitness.map (·.1)) ≠ Registry.default ∧
-    (∀ x ∈ streamWitness, x.2.length < 10 ^ 9 ∧ tableDistinct x.1.table = true) := by
+    (∀ x ∈ streamWitness, x.2.length < 10 ^ 9 ∧ tableAdjacent x.1.table = true) := by
   refine ⟨?_, ?_, by decide +kernel⟩
   · intro x hx
     have hc : ∀ y ∈ streamWitness, (y.1.table.all fun f => Loc.canonP f.loc) = true := by decide +kernel
